@@ -311,6 +311,51 @@ func firstValueHelper(p *Program, fo *types.Func) bool {
 // recogniseOrCombinator checks authMiddlewareOr and middlewares.
 func recogniseOrCombinator(p *Program, m *RouterModel) (ok bool, why string) {
 	info := p.Pkg.TypesInfo
+	if m.DirectOr {
+		// one helper wraps h in the OR-combinator: func withAuth(next http.Handler, fns []AuthMiddleware) http.Handler
+		if m.AuthOrFn != nil {
+			return false, "leaves mix the direct wrap helper with a separate auth combinator"
+		}
+		fd := declOfObj(p, m.WrapFn)
+		if fd == nil || fd.Recv != nil {
+			return false, "wrap helper used by the route leaves not found"
+		}
+		ps := paramObjs(info, fd)
+		if len(ps) != 2 || len(fd.Body.List) != 1 {
+			return false, "direct wrap helper: unexpected outer shape"
+		}
+		next, fns := ps[0], ps[1]
+		ret, okr := fd.Body.List[0].(*ast.ReturnStmt)
+		if !okr || len(ret.Results) != 1 {
+			return false, "direct wrap helper does not return http.HandlerFunc(...)"
+		}
+		conv, okc := ret.Results[0].(*ast.CallExpr)
+		if !okc || len(conv.Args) != 1 {
+			return false, "direct wrap helper does not return http.HandlerFunc(...)"
+		}
+		if tv, ok := info.Types[conv.Fun]; !ok || !tv.IsType() || tv.Type.String() != "net/http.HandlerFunc" {
+			return false, "direct wrap helper: handler is not an http.HandlerFunc"
+		}
+		inner, okf := conv.Args[0].(*ast.FuncLit)
+		if !okf {
+			inner, okf = p.inliner().methodValueAsFuncLit(conv.Args[0])
+		}
+		if !okf {
+			return false, "direct wrap helper: the handler is not a function literal"
+		}
+		var names []*ast.Ident
+		for _, f := range inner.Type.Params.List {
+			names = append(names, f.Names...)
+		}
+		if len(names) != 2 {
+			return false, "direct wrap helper: inner handler params"
+		}
+		c := &rmCtx{p: p, info: info}
+		if why := analyseAuthHandler(p, c, inner.Body, info.Defs[names[0]], info.Defs[names[1]], next, fns); why != "" {
+			return false, why
+		}
+		return true, ""
+	}
 	fd := declOfObj(p, m.AuthOrFn)
 	if fd == nil {
 		return false, "auth combinator used by the route leaves not found"
@@ -504,7 +549,7 @@ func runC11(r *Report) {
 			cred[f.Name()] = cr
 		}
 		_ = info
-		if anyAuth || m.AuthOrFn != nil {
+		if anyAuth || m.AuthOrFn != nil || m.DirectOr {
 			ok, why := recogniseOrCombinator(p, m)
 			if ok {
 				r.OK("C11/or-combinator", p.Name+":authMiddlewareOr", "", "")
